@@ -665,6 +665,128 @@ fn run_histories(rep: &Report, budget: &Budget, max_len: usize) {
     rep.add("traces_validated_against_impl", rep.get("histories"));
 }
 
+
+// ------------------------------------------------------------------------------------ (iii-b) child, then parent
+
+/// Cache transparency on sub-term / parent pairs: for every T2 term `c` of a small universe and
+/// every one-operator parent `p` of `c`, the reference ONE simplifier returns for `p` after it has
+/// already simplified `c` must be the reference a fresh simplifier returns for `p` in the same
+/// context (and both must be fixed points). Long rewrite chains of the child (1-bit add -> xor ->
+/// not(not x) -> x) are what makes stale intermediate cache entries observable.
+fn check_child_parent(c: &T, p: &T) -> (Option<(String, String)>, u64) {
+    let mut calls = 0u64;
+    for kind in [Kind::Sparse, Kind::Dense] {
+        let mut ctx = Context::default();
+        let pe = p.build(&mut ctx);
+        let ce = c.build(&mut ctx);
+        let r = catch(|| {
+            let mut s = Simp::new(kind);
+            let rc = s.simplify(&mut ctx, ce);
+            let rp = s.simplify(&mut ctx, pe);
+            let rp_again = s.simplify(&mut ctx, rp);
+            let fresh = Simp::new(kind).simplify(&mut ctx, pe);
+            (rc, rp, rp_again, fresh)
+        });
+        calls += 4;
+        let Ok((_rc, rp, rp_again, fresh)) = r else { return (None, calls) };
+        if rp != fresh {
+            return (
+                Some((
+                    format!("child-parent-history-{kind:?}"),
+                    format!(
+                        "one {kind:?}-cache simplifier that has already simplified the sub-term {c} returns `{}` for {p}, a fresh simplifier in the same context returns `{}`",
+                        structure(&ctx, rp),
+                        structure(&ctx, fresh)
+                    ),
+                )),
+                calls,
+            );
+        }
+        if rp_again != rp {
+            return (Some((format!("child-parent-idempotence-{kind:?}"), format!("after simplifying {c} then {p}, simplifying the result `{}` again gives `{}`", structure(&ctx, rp), structure(&ctx, rp_again)))), calls);
+        }
+    }
+    (None, calls)
+}
+
+fn run_child_parent(rep: &Report, budget: &Budget, thorough: bool) {
+    let universes: Vec<Vec<u32>> = if thorough { vec![vec![1], vec![1, 2], vec![1, 4], vec![2, 3]] } else { vec![vec![1], vec![1, 2]] };
+    for u in universes {
+        if budget.exceeded() {
+            rep.cap_hit(&format!("budget: child/parent universe {u:?} not started"));
+            continue;
+        }
+        let mut cfg = Cfg::new(&u);
+        cfg.lits = Lits::Reduced;
+        cfg.ext_by = vec![1];
+        cfg.divrem = false;
+        let inner = t1(&cfg);
+        let stop = AtomicBool::new(false);
+        inner.par_iter().enumerate().for_each(|(ii, x)| {
+            if stop.load(Ordering::Relaxed) {
+                return;
+            }
+            if budget.exceeded() {
+                stop.store(true, Ordering::Relaxed);
+                return;
+            }
+            let (mut pairs, mut calls, mut hs) = (0u64, 0u64, vec![]);
+            for (ci, c) in wrap_all(x, &cfg).iter().enumerate() {
+                // only children the simplifier rewrites can leave intermediate cache entries
+                let mut probe = Context::default();
+                let ce = c.build(&mut probe);
+                let rewritten = catch(|| Simp::new(Kind::Sparse).simplify(&mut probe, ce)).map(|r| r != ce).unwrap_or(false);
+                if !rewritten {
+                    continue;
+                }
+                // parents: every operator over c and leaves, plus binary operators whose other
+                // operand is itself a small non-leaf term (rules that look at two non-leaf children)
+                let mut parents = wrap_all(c, &cfg);
+                if let Ty::Bv(w) = c.ty() {
+                    let sibs: Vec<T> = (0..2)
+                        .flat_map(|k| {
+                            let sy = T::Sym(sym_name(Ty::Bv(w), k), Ty::Bv(w));
+                            vec![T::not(sy.clone()), T::Neg(Box::new(sy.clone())), T::bin(Bin::And, sy.clone(), T::Sym(sym_name(Ty::Bv(w), 1 - k), Ty::Bv(w)))]
+                        })
+                        .collect();
+                    for sib in sibs.iter() {
+                        for op in [Bin::And, Bin::Or, Bin::Xor, Bin::Eq, Bin::Add, Bin::Sub, Bin::Uge, Bin::Concat] {
+                            parents.push(T::bin(op, c.clone(), sib.clone()));
+                            parents.push(T::bin(op, sib.clone(), c.clone()));
+                        }
+                        if w == 1 {
+                            parents.push(T::ite(c.clone(), sib.clone(), T::Sym(sym_name(Ty::Bv(1), 0), Ty::Bv(1))));
+                            parents.push(T::bin(Bin::Implies, c.clone(), sib.clone()));
+                        }
+                    }
+                }
+                for (pi, p) in parents.iter().enumerate() {
+                    let (f, n) = check_child_parent(c, p);
+                    pairs += 1;
+                    calls += n;
+                    hs.push(hash64(&format!("{c}|{p}")));
+                    if let Some((class, what)) = f {
+                        rep.violation(Violation {
+                            sig: format!("C13|{}|{}/{}|{}", class, p.op_name(), c.op_name(), wclass(operand_width(p))),
+                            what,
+                            case: json!({"kind": "child-parent", "child": c.to_string(), "parent": p.to_string()}),
+                            order: (1u64 << 59) + ((ii as u64) << 30) + ((ci as u64) << 12) + pi as u64,
+                        });
+                    }
+                }
+            }
+            flush_calls();
+            rep.add("child_parent_pairs", pairs);
+            rep.add("histories", pairs);
+            rep.add("transitions", calls);
+            rep.distinct_hashes(&hs);
+        });
+        if stop.load(Ordering::Relaxed) {
+            rep.cap_hit(&format!("budget: child/parent universe {u:?} cut short"));
+        }
+    }
+}
+
 // ------------------------------------------------------------------------------------ driver
 
 pub fn meta(rep: &mut Report) {
@@ -688,6 +810,8 @@ pub fn run(opts: &Opts, rep: &Report) {
     std::thread::scope(|sc| {
         sc.spawn(|| watchdog(rep, &done));
         run_histories(rep, &hist_budget, if tier.is_thorough() { 3 } else { 2 });
+        let cp_budget = Budget::new(opts.budget_s * 0.25);
+        run_child_parent(rep, &cp_budget, tier.is_thorough());
         let st = stages(tier, opts.seed, true, true);
         run_stages(&st, rep, &budget, &|_| true, &|t, order| {
             let r = check_term(t, order, rep);
@@ -732,6 +856,12 @@ pub fn replay(case: &Value, rep: &Report) {
             if let (Some((class, what)), _, _) = history_check(&pool, &bl, &idx) {
                 let last = &pool.terms[*idx.last().unwrap()];
                 out.push(Violation { sig: format!("C13|{}|{}|{}|len{}", class, sig_shape(last), wclass(operand_width(last)), idx.len()), what, case: case2.clone(), order: 0 });
+            }
+        } else if kind == "child-parent" {
+            let c = parse_t(case2["child"].as_str().expect("child")).expect("parse child");
+            let p = parse_t(case2["parent"].as_str().expect("parent")).expect("parse parent");
+            if let (Some((class, what)), _) = check_child_parent(&c, &p) {
+                out.push(Violation { sig: format!("C13|{}|{}/{}|{}", class, p.op_name(), c.op_name(), wclass(operand_width(&p))), what, case: case2.clone(), order: 0 });
             }
         } else {
             let t = parse_t(case2["term"].as_str().expect("term")).expect("parse term");
